@@ -149,6 +149,17 @@ def matrix():
             for st in STATES:
                 for fl in (16, 48):
                     lines.append(cell(ix, st, target, None, 0, 0, fs_paused=False, kind="matrix", acct_flags=fl))
+    # the pause that counts is the one of the BANK's (account's) own group: while that group's cache says paused, passing
+    # ANOTHER group - one that is not paused - in the `group` slot must not let the instruction through
+    for ix in FINANCIAL:
+        base = fin_base(ix)
+        fields = dict(base["fields"])
+        if fields.get("group") != "gA":
+            continue
+        for target in bank_targets(ix)[:1]:
+            for d in (0, 1799):
+                c = cell(ix, "Operational", target, 1, 0, d, kind="gsub")
+                lines.append(c.replace(",group:gA", ",group:gB").replace(" a=group:gA", " a=group:gB"))
     lines += valuation_cells()
     return lines
 
@@ -347,6 +358,11 @@ def oracle(suite, case, impl):
     cf, S, T, st = k["cf"], int(k["S"]), int(k["T"]), k["st"]
     paused = cf == "1" and (T - S) < 1800
     passed_validation = accepted or impl.startswith("B ")
+    if k["k"] == "gsub":
+        if passed_validation:
+            return {"key": f"pause-evaded-with-foreign-group:{ix}",
+                    "what": f"{ix} on a bank / account of a PAUSED group passed validation when another, unpaused group was passed in the group slot: {impl}"}
+        return None
     if paused:
         if passed_validation:
             return {"key": f"accepted-while-paused:{ix}", "what": f"{ix} passed the pause check {T - S}s after the cached pause start: {impl}"}
